@@ -221,10 +221,14 @@ def entity_fields(chk, facts):
             if s[0] == "a" and s[2][0] == "agg" and s[2][1][0] == "adt" and s[2][1][1] == EJ:
                 found = True
                 names = s[2][1][3]
-                got = {nm: sorted(x for x in L.operand_labels(o) if x in ("uid", "attrs", "ancestors", "parents", "tags")) for nm, o in zip(names, s[2][2])}
+                got = {nm: sorted(x for x in L.operand_labels(o) if x in ("uid", "attrs", "ancestors", "parents", "indirect_ancestors", "tags")) for nm, o in zip(names, s[2][2])}
                 want = {"uid": ["uid"], "attrs": ["attrs"], "tags": ["tags"]}
-                ok = all(got.get(k) == v for k, v in want.items()) and got.get("parents") in (["ancestors"], ["parents"], ["ancestors", "parents"])
-                chk.ob(rule, "from_entity", ok, "EntityJson fields are filled from Entity accessors %s" % got, where=f.where(s[3]), fn=f.name, sample=got)
+                par = set(got.get("parents") or [])
+                # the JSON `parents` list is the only carrier of the ancestor relation: it must hold every ancestor (direct and indirect)
+                par_ok = "ancestors" in par or {"parents", "indirect_ancestors"} <= par
+                ok = all(got.get(k) == v for k, v in want.items()) and par_ok
+                chk.ob(rule, "from_entity", ok, "EntityJson fields are filled from Entity accessors %s%s" % (got, "" if par_ok else " — `parents` does not carry all ancestors (indirect ancestors are lost in the round trip)"),
+                       where=f.where(s[3]), fn=f.name, key="%s:from_entity" % rule, sample=got)
         if not found:
             chk.ob(rule, "from_entity", False, "no EntityJson literal in from_entity", where=f.where(), fn=f.name)
     # parse side: every field of EntityJson is consumed by the parser
@@ -252,6 +256,53 @@ def entity_fields(chk, facts):
            sample={"read": sorted(read), "fields": fields})
 
 
+def implicit_forms(chk, facts):
+    """Implicit extension forms (`{"fn":..,"arg":..}` without `__extn`, or a bare constructor argument) are spellings the
+    schema licenses: a RestrictedExpr may be built from them only inside the `Some(SchemaType::Extension)` arm of the
+    expected-type dispatch. Anywhere else (the type-independent `unknown` pre-check in particular) only the explicit escape counts,
+    otherwise ordinary records / strings of conforming data would be re-read as extension calls."""
+    rule = "C10.GUARD.implicit"
+    name = "cedar_policy_core::entities::json::value::ValueParser::val_into_restricted_expr"
+    f = get_fn(chk, facts, rule, name)
+    if f is None:
+        return
+    EXT = "cedar_policy_core::entities::json::value::ExtnValueJson"
+    r = facts.adts.get(EXT)
+    st = facts.adts.get("cedar_policy_core::entities::json::schema_types::SchemaType")
+    if r is None or st is None:
+        chk.lost(rule, EXT)
+        return
+    # region of the Extension arm of the dispatch on expected_ty
+    ext_region = set()
+    for b, scrut, arms, other in shape.variant_switches(f, "schema_types::SchemaType"):
+        for vi, tgt in arms.items():
+            if st["variants"][vi]["name"] == "Extension":
+                ext_region |= cfg.dominated_region(f, tgt)
+    chk.ob(rule, "dispatch", bool(ext_region), "val_into_restricted_expr dispatches on the expected SchemaType with an Extension arm: %s" % bool(ext_region), where=f.where(), fn=f.name)
+    # closures created inside the Extension arm inherit its licence
+    licensed = set()
+    for b, s_ in f.stmts():
+        if s_[0] == "a" and s_[2][0] == "agg" and s_[2][1][0] == "closure" and b in ext_region:
+            licensed.add(s_[2][1][1])
+    n = 0
+    for g in [f] + facts.closures_of(name):
+        for b, scrut, arms, other in shape.variant_switches(g, "json::value::ExtnValueJson"):
+            for vi, tgt in sorted(arms.items()):
+                vn = r["variants"][vi]["name"]
+                if not vn.startswith("Implicit"):
+                    continue
+                reach = cfg.reachable(g, tgt, cut_blocks={b})
+                builds = sorted({short(callee(t)).split("::")[-1] for bb, t in g.calls() if bb in reach and callee(t).startswith("cedar_policy_core::ast::restricted_expr::RestrictedExpr::")
+                                 and callee(t).split("::")[-1] in ("unknown", "call_extension_fn", "val", "set", "record")})
+                ok_here = (g is f and b in ext_region) or g.name in licensed or any(g.name.startswith(x + "::") for x in licensed)
+                n += 1
+                chk.ob(rule, "%s@%s" % (vn, short(g.name).split("::")[-1] if g is not f else "dispatch"), ok_here or not builds,
+                       "the %s form %s" % (vn, "is accepted under the Extension arm of the expected type" if ok_here else
+                                           ("is rejected outside the Extension arm" if not builds else "builds RestrictedExpr::%s outside the Extension arm of the expected type: data of another type is re-read as an extension call" % builds)),
+                       where=g.where(), fn=g.name, key="%s:%s:%s" % (rule, vn, "licensed" if ok_here else ",".join(builds)))
+    chk.floor(rule, "implicit-form arms", n, 4)
+
+
 def run(chk, facts, tier):
     facts.load_crate("cedar_policy_core.lib")
     chk.explanation = (
@@ -265,3 +316,4 @@ def run(chk, facts, tier):
     own_record(chk, facts)
     value_hom(chk, facts)
     entity_fields(chk, facts)
+    implicit_forms(chk, facts)
